@@ -56,7 +56,7 @@ func (x *X) String() string {
 }
 
 func (x *X) write(sb *strings.Builder, d int) {
-	if d > 10 {
+	if d > printDepth {
 		sb.WriteString("…")
 		return
 	}
@@ -106,6 +106,9 @@ func (x *X) write(sb *strings.Builder, d int) {
 	}
 	sb.WriteString(")")
 }
+
+// printDepth bounds the depth to which expressions are printed.
+var printDepth = 6
 
 type xbuilder struct {
 	c       *Ctx
@@ -236,7 +239,13 @@ func (b *xbuilder) expr(v ssa.Value, d int, onpath map[ssa.Value]bool) *X {
 		// A cell written exactly once as a whole (spilled parameter or
 		// single-assignment local whose address is only used for field
 		// projections) stands for the value stored in it.
-		if v.Comment != "complit" {
+		if v.Comment == "complit" {
+			if cl := b.complit(v, sub); cl != nil {
+				cl.V = v
+				cl.Addr = true
+				return cl
+			}
+		} else {
 			if stores, esc := b.storesTo(v, map[ssa.Value]bool{}); !esc && len(stores) == 1 && !fieldWritten(v) {
 				y := *sub(stores[0].Val)
 				y.Cell = v
